@@ -153,6 +153,11 @@ def slice_faces_plane(
         # shape is the same as faces (n,3)
         dots = np.einsum("i,ij->j", plane_normal, (vertices - plane_origin).T)
 
+    # A vertex closer to the plane than the merge tolerance counts as lying on
+    # it: snap its distance to zero once, so that the classification below and
+    # the intersection parameters further down use the same distances.
+    dots = np.where(np.abs(dots) <= tol.merge, 0.0, dots)
+
     # Find vertex orientations w.r.t. faces for all triangles:
     #  -1 -> vertex "inside" plane (positive normal direction)
     #   0 -> vertex on plane
@@ -220,8 +225,10 @@ def slice_faces_plane(
     # Extract the intersections of each triangle's edges with the plane
     o = vertices[faces][onedge]  # origins
     d = np.roll(o, -1, axis=1) - o  # directions
-    num = (plane_origin - o).dot(plane_normal)  # compute num/denom
-    denom = np.dot(d, plane_normal)
+    # compute num/denom from the (snapped) per-vertex distances
+    dd = dots[faces][onedge]
+    num = -dd
+    denom = np.roll(dd, -1, axis=1) - dd
     denom[denom == 0.0] = 1e-12  # prevent division by zero
     dist = np.divide(num, denom)
     # intersection points for each segment
